@@ -346,3 +346,50 @@ func setDiff(a, b map[string]bool) []string {
 	sort.Strings(out)
 	return out
 }
+
+// interpExecLoopName returns the name of the interpreter's execution loop: the function with the largest switch over
+// the operation-kind enumeration (anchored by shape, not by its identifier).
+var execLoopMemo = map[*packages.Package]string{}
+
+func interpExecLoopName(p *packages.Package) string {
+	if p == nil {
+		return ""
+	}
+	if v, ok := execLoopMemo[p]; ok {
+		return v
+	}
+	v := interpExecLoopNameUncached(p)
+	execLoopMemo[p] = v
+	return v
+}
+
+func interpExecLoopNameUncached(p *packages.Package) string {
+	kt := p.Types.Scope().Lookup("operationKind")
+	if kt == nil {
+		return ""
+	}
+	best, bestN := "", 0
+	core.AllFuncDecls(p, func(fd *ast.FuncDecl) {
+		ast.Inspect(fd.Body, func(x ast.Node) bool {
+			sw, ok := x.(*ast.SwitchStmt)
+			if !ok {
+				return true
+			}
+			n := 0
+			for _, cs := range sw.Body.List {
+				for _, l := range cs.(*ast.CaseClause).List {
+					if o := constObjOf(p.TypesInfo, l); o != nil && types.Identical(o.Type(), kt.Type()) {
+						n++
+					}
+				}
+			}
+			// among the functions that dispatch on (almost) every kind – the execution loop, the String method –
+			// the execution loop is by far the largest
+			if n >= 100 && int(fd.End()-fd.Pos()) > bestN {
+				best, bestN = fd.Name.Name, int(fd.End()-fd.Pos())
+			}
+			return true
+		})
+	})
+	return best
+}
